@@ -503,16 +503,46 @@ pub fn profile_name() -> String {
     format!("{dbg}+{pf}{asan}")
 }
 
-fn child_main<C: Case>(args: &Args, cases: &[C], k: u64, n: u64, start: u64) {
+/// Deterministic execution order: heavier cases first (longest-processing-time scheduling), ties by index.
+fn exec_order<C: Case>(cases: &[C]) -> Vec<usize> {
+    let mut o: Vec<usize> = (0..cases.len()).collect();
+    o.sort_by_key(|&i| (std::cmp::Reverse(cases[i].weight()), i));
+    o
+}
+
+/// Chunks of the execution order handed to the children on demand.
+fn chunks<C: Case>(cases: &[C], order: &[usize], n: u64) -> Vec<(usize, usize)> {
+    let total: u64 = cases.iter().map(|c| c.weight().max(1)).sum();
+    let target = (total / (n.max(1) * 48)).max(1);
+    let mut out = Vec::new();
+    let mut a = 0;
+    let mut acc = 0u64;
+    for (j, &i) in order.iter().enumerate() {
+        acc += cases[i].weight().max(1);
+        if acc >= target || j + 1 - a >= 512 {
+            out.push((a, j + 1));
+            a = j + 1;
+            acc = 0;
+        }
+    }
+    if a < order.len() {
+        out.push((a, order.len()));
+    }
+    out
+}
+
+/// Child: reads "a b" ranges (positions in the execution order) from stdin, runs those cases, answers
+/// "K a b"; at end of input prints the final statistics.
+fn child_main<C: Case>(args: &Args, cases: &[C]) {
     jrn::install();
     install_panic_hook();
+    let order = exec_order(cases);
     let mut ctx = Ctx::new(&args.property, &profile_name(), &args.tier);
     ctx.want_digest = args.digest;
     let out = std::io::stdout();
-    let mut since = 0;
     let mut sent_v = 0usize;
     let mut sent_d = 0usize;
-    let mut flush = |ctx: &mut Ctx, fin: bool| {
+    let mut flush = |ctx: &mut Ctx, done: Option<(usize, usize)>, fin: bool| {
         let mut o = out.lock();
         while sent_v < ctx.viols.len() {
             writeln!(o, "V {}", serde_json::to_string(&ctx.viols[sent_v]).unwrap()).ok();
@@ -523,6 +553,9 @@ fn child_main<C: Case>(args: &Args, cases: &[C], k: u64, n: u64, start: u64) {
             sent_d += 1;
         }
         writeln!(o, "S {}", ctx.stats_json()).ok();
+        if let Some((a, b)) = done {
+            writeln!(o, "K {a} {b}").ok();
+        }
         if fin {
             writeln!(o, "X {}", serde_json::to_string(&ctx.samples).unwrap()).ok();
             let mut vc: Vec<(&String, &u64)> = ctx.viol_counts.iter().collect();
@@ -532,29 +565,31 @@ fn child_main<C: Case>(args: &Args, cases: &[C], k: u64, n: u64, start: u64) {
         }
         o.flush().ok();
     };
-    // VERIF_SEED only rotates which child runs which case; it cannot change what is explored
-    let rot: u64 = std::env::var("VERIF_SEED").ok().and_then(|s| s.parse::<u64>().ok()).unwrap_or(0) % n.max(1);
-    for (i, c) in cases.iter().enumerate() {
-        let i = i as u64;
-        if (i + rot) % n != k || i < start {
-            continue;
+    let stdin = std::io::stdin();
+    let mut line = String::new();
+    loop {
+        line.clear();
+        if stdin.lock().read_line(&mut line).unwrap_or(0) == 0 {
+            break;
         }
-        let secs = 30 + c.weight() / 100_000;
-        jrn::alarm(secs.min(3000) as u32);
-        ctx.begin_case(i, serde_json::to_value(c).unwrap());
-        // a panic that escapes the per-observation traps (construction, the harness itself)
-        if let Err(msg) = trap(|| c.run(&mut ctx)) {
-            ctx.violation("<case>", "escaped-panic", "construction or unguarded call".into(), "no panic".into(), format!("PANIC: {msg}"));
+        let mut it = line.split_whitespace();
+        let (Some(a), Some(b)) = (it.next().and_then(|x| x.parse::<usize>().ok()), it.next().and_then(|x| x.parse::<usize>().ok())) else { continue };
+        for j in a..b.min(order.len()) {
+            let i = order[j];
+            let c = &cases[i];
+            let secs = 30 + c.weight() / 100_000;
+            jrn::alarm(secs.min(3000) as u32);
+            ctx.begin_case(i as u64, serde_json::to_value(c).unwrap());
+            // a panic that escapes the per-observation traps (construction, the harness itself)
+            if let Err(msg) = trap(|| c.run(&mut ctx)) {
+                ctx.violation("<case>", "escaped-panic", "construction or unguarded call".into(), "no panic".into(), format!("PANIC: {msg}"));
+            }
+            ctx.end_case();
         }
-        ctx.end_case();
-        since += 1;
-        if since >= 32 {
-            since = 0;
-            flush(&mut ctx, false);
-        }
+        jrn::alarm(0);
+        flush(&mut ctx, Some((a, b)), false);
     }
-    jrn::alarm(0);
-    flush(&mut ctx, true);
+    flush(&mut ctx, None, true);
 }
 
 #[derive(Default)]
@@ -606,32 +641,46 @@ pub fn main_with<C: Case>(enumerate: impl Fn(&Args) -> Vec<C>) {
         println!("{}", serde_json::to_string(&cases[idx]).unwrap());
         return;
     }
-    if let Some((k, n, start)) = args.child {
-        child_main(&args, &cases, k, n, start);
+    if args.child.is_some() {
+        child_main(&args, &cases);
         return;
     }
     let t0 = std::time::Instant::now();
     let exe = std::env::current_exe().unwrap();
     let n = args.jobs.max(1).min(cases.len().max(1) as u64);
     let merged = Mutex::new(Merged::default());
+    let order = exec_order(&cases);
+    let mut work = chunks(&cases, &order, n);
+    // VERIF_SEED only rotates the order in which chunks are handed out; it cannot change what is explored
+    let rot = std::env::var("VERIF_SEED").ok().and_then(|s| s.parse::<usize>().ok()).unwrap_or(0);
+    if !work.is_empty() && rot % 2 == 1 {
+        // keep heavy-first, but let odd seeds start from a different chunk among the light tail
+        let half = work.len() / 2;
+        let shift = rot % (work.len() - half).max(1);
+        work[half..].rotate_left(shift);
+    }
+    work.reverse(); // pop() takes from the end: heaviest first
+    let queue = Mutex::new(work);
     std::thread::scope(|sc| {
         for k in 0..n {
             let merged = &merged;
             let exe = &exe;
             let args = &args;
             let cases = &cases;
+            let order = &order;
+            let queue = &queue;
             sc.spawn(move || {
-                let mut start = 0u64;
                 let mut restarts = 0;
-                loop {
+                let mut pending: Option<(usize, usize)> = None;
+                'incarnation: loop {
                     let mut cmd = Command::new(exe);
                     cmd.arg(&args.property).arg(&args.tier);
                     if args.digest {
                         cmd.arg("--digest");
                     }
                     cmd.args(&args.extra);
-                    cmd.args(["--child", &k.to_string(), &n.to_string(), &start.to_string()]);
-                    cmd.stdout(Stdio::piped()).stderr(Stdio::piped());
+                    cmd.args(["--child", &k.to_string(), &n.to_string(), "0"]);
+                    cmd.stdin(Stdio::piped()).stdout(Stdio::piped()).stderr(Stdio::piped());
                     let mut ch = match cmd.spawn() {
                         Ok(c) => c,
                         Err(e) => {
@@ -658,33 +707,65 @@ pub fn main_with<C: Case>(enumerate: impl Fn(&Args) -> Vec<C>) {
                         }
                         String::from_utf8_lossy(&tail).to_string()
                     });
+                    let mut stdin = ch.stdin.take();
+                    let mut reader = BufReader::new(ch.stdout.take().unwrap());
                     let mut last_stats: Option<Value> = None;
                     let mut finished = false;
                     let mut viols = Vec::new();
                     let mut samples: Vec<Value> = Vec::new();
                     let mut counts: Vec<(String, u64)> = Vec::new();
                     let mut digests = Vec::new();
-                    for line in BufReader::new(ch.stdout.take().unwrap()).lines() {
-                        let Ok(line) = line else { break };
-                        if let Some(r) = line.strip_prefix("V ") {
-                            if let Ok(v) = serde_json::from_str::<Violation>(r) {
-                                viols.push(v);
+                    // hand out chunks until the queue is empty, then close stdin and read the final statistics
+                    let mut alive = true;
+                    while alive {
+                        if pending.is_none() {
+                            pending = queue.lock().unwrap().pop();
+                        }
+                        match pending {
+                            Some((a, b)) => {
+                                let ok = stdin.as_mut().map(|w| writeln!(w, "{a} {b}").and_then(|_| w.flush()).is_ok()).unwrap_or(false);
+                                if !ok {
+                                    alive = false;
+                                }
                             }
-                        } else if let Some(r) = line.strip_prefix("S ") {
-                            last_stats = serde_json::from_str(r).ok();
-                        } else if let Some(r) = line.strip_prefix("X ") {
-                            samples = serde_json::from_str(r).unwrap_or_default();
-                        } else if let Some(r) = line.strip_prefix("C ") {
-                            counts = serde_json::from_str(r).unwrap_or_default();
-                        } else if let Some(r) = line.strip_prefix("D ") {
-                            let mut it = r.split(' ');
-                            if let (Some(a), Some(b)) = (it.next(), it.next()) {
-                                digests.push((a.parse().unwrap_or(0), b.parse().unwrap_or(0)));
+                            None => {
+                                stdin = None; // EOF: the child prints its final statistics
                             }
-                        } else if line == "E" {
-                            finished = true;
+                        }
+                        let mut line = String::new();
+                        loop {
+                            line.clear();
+                            if reader.read_line(&mut line).unwrap_or(0) == 0 {
+                                alive = false;
+                                break;
+                            }
+                            let l = line.trim_end();
+                            if let Some(r) = l.strip_prefix("V ") {
+                                if let Ok(v) = serde_json::from_str::<Violation>(r) {
+                                    viols.push(v);
+                                }
+                            } else if let Some(r) = l.strip_prefix("S ") {
+                                last_stats = serde_json::from_str(r).ok();
+                            } else if let Some(r) = l.strip_prefix("X ") {
+                                samples = serde_json::from_str(r).unwrap_or_default();
+                            } else if let Some(r) = l.strip_prefix("C ") {
+                                counts = serde_json::from_str(r).unwrap_or_default();
+                            } else if let Some(r) = l.strip_prefix("D ") {
+                                let mut it = r.split(' ');
+                                if let (Some(a), Some(b)) = (it.next(), it.next()) {
+                                    digests.push((a.parse().unwrap_or(0), b.parse().unwrap_or(0)));
+                                }
+                            } else if l.starts_with("K ") {
+                                pending = None;
+                                break;
+                            } else if l == "E" {
+                                finished = true;
+                                alive = false;
+                                break;
+                            }
                         }
                     }
+                    drop(stdin);
                     let status = ch.wait();
                     let stderr = errt.join().unwrap_or_default();
                     let mut m = merged.lock().unwrap();
@@ -727,8 +808,14 @@ pub fn main_with<C: Case>(enumerate: impl Fn(&Args) -> Vec<C>) {
                             *m.viol_counts.entry(v.key()).or_insert(0) += 1;
                             m.total_viols += 1;
                             m.viols.push(v);
-                            start = c.case + 1;
-                            // the next index of this child at or after start
+                            // continue the interrupted chunk after the crashed case
+                            if let Some((a, b)) = pending {
+                                let pos = (a..b).find(|&j| order[j] == c.case as usize);
+                                pending = match pos {
+                                    Some(j) if j + 1 < b => Some((j + 1, b)),
+                                    _ => None,
+                                };
+                            }
                         }
                         _ => {
                             let mut tail = stderr;
@@ -744,6 +831,7 @@ pub fn main_with<C: Case>(enumerate: impl Fn(&Args) -> Vec<C>) {
                         m.machinery_errors.push(format!("child {k}: more than 40 crashes, giving up (violations recorded so far are kept)"));
                         return;
                     }
+                    continue 'incarnation;
                 }
             });
         }
